@@ -580,6 +580,12 @@ class DictSpace(statespace.Space):
       elif op[0] in ('or', 'copy') and ri[1] is w['x']:
         rec.viol(f'{base}/result-aliases-self', f'op={op!r} returned the dict itself', trace)
         bad = True
+      elif op[0] == 'setdefault' and isinstance(rm[1], (list, dict)) and any(rm[1] is v for v in w['m'].values()):
+        # dict.setdefault hands back the very object the dict holds (d.setdefault(k, []).append(x) relies on it)
+        if not any(ri[1] is v for v in w['x'].sym_values()):
+          rec.viol(f'{base}/result-not-the-stored-object', f'op={op!r}: python returns the object stored under the key, pg.Dict returns '
+                   f'another object ({type(ri[1]).__name__}); a change made through it is lost', trace)
+          bad = True
     clause = agree_dict(w['x'], w['m'])
     if clause:
       rec.viol(f'{base}/post:{clause[0]}', f'after op={op!r}: model={w["m"]!r}; {clause[1]}', trace)
